@@ -9,7 +9,7 @@
 //                H hadCommandFailure, M:<cmd>:<n> cannot build due to n missing inputs, Q:<cmd> shouldCommandStart,
 //                E error reported, C cancel requested by the delegate
 //   probe <hexdir> <hexfile>
-//     -> "rfo <entries> | valid <entries> | inp <entries>"   (see below)
+//     -> "rfo <entries> | valid <entries> | inp <entries> | prior <entries>"   (see below)
 //   open <hexdir> <hexfile> <hexdb|-> <lanes>     one BuildSystemFrontend kept alive for the following fbuild lines (C05)
 //   fbuild <cancel-at|-> <delay-us> <thread-cancel-us|-> <hextarget|->
 //     builds on the open frontend; cancel() is called from inside the <cancel-at>-th delegate callback of this build
@@ -305,6 +305,26 @@ std::string doProbe(const SV& t) {
       std::string sq; for (int x : s) { if (!sq.empty()) sq += "."; sq += std::to_string(x); }
       out += " " + kv.first + ":" + (sq.empty() ? "-" : sq) + ":" + (started ? "1" : "0") + ":" + std::to_string(resultKind) + ":" +
              std::to_string(del.failures) + ":" + std::to_string(missing);
+    }
+  }
+  // (d) providePriorValue / execute of the commands named probe-pr-*: the recorded prior value of each kind, the
+  //     non-successful ones FIRST (hasPriorResult is only ever set, never cleared, by the unchanged code)
+  out += " | prior";
+  {
+    const int PRIORS[] = {-1, 11, 12, 13, 14, 0, 10, 17};
+    for (auto& kv : del.commands) {
+      if (kv.first.compare(0, 9, "probe-pr-") != 0) continue;
+      Command* c = kv.second;
+      for (int pk : PRIORS) {
+        { std::lock_guard<std::mutex> l(del.mu); del.events.clear(); del.failures = 0; }
+        c->start(system, ti);
+        if (pk >= 0) c->providePriorValue(system, ti, pk == 0 ? BuildValue::makeInvalid() : cmdValue(pk, c->getOutputs().size(), 0, false));
+        int resultKind = -1;
+        c->execute(system, ti, nullptr, [&](BuildValue&& r) { resultKind = (int)r.getKind(); });
+        bool started = false;
+        for (auto& e : del.events) if (e[0] == 'S') started = true;
+        out += " " + kv.first + ":" + (pk < 0 ? std::string("none") : std::to_string(pk)) + ":" + (started ? "1" : "0") + ":" + std::to_string(resultKind);
+      }
     }
   }
   return out;
